@@ -601,6 +601,7 @@ func (r *ChunkReader) resolveSeekPosition() error {
 
 	// Walk the branch nodes until we find the leaf node containing the
 	// seekPosition.
+	cOffset := r.rootNodeCOffset
 	cBias := int64(0)
 	dBias := int64(0)
 	for {
@@ -623,6 +624,7 @@ func (r *ChunkReader) resolveSeekPosition() error {
 		}
 		childDBias := r.currNode.dOff(i, dBias)
 		childDSize := r.currNode.dSize(i)
+		parentDPtrMax := r.currNode.dPtrMax()
 
 		if err := r.loadAndValidate(childCOffset,
 			parentCodec, parentCodecHasMixBit, parentVersion, parentCOffMax,
@@ -630,6 +632,14 @@ func (r *ChunkReader) resolveSeekPosition() error {
 			return err
 		}
 
+		// Rule out infinite loops, per the RAC spec: the child's Branch
+		// COffset or its DPtrMax must be less than the parent's.
+		if (childCOffset >= cOffset) && (r.currNode.dPtrMax() >= parentDPtrMax) {
+			r.err = errInvalidIndexNode
+			return r.err
+		}
+
+		cOffset = childCOffset
 		cBias = childCBias
 		dBias = childDBias
 	}
